@@ -22,7 +22,7 @@ use crate::r#static::{directory_handler, file_handler, redirect_handler};
 
 use std::error::Error;
 use std::io::{Read, Write};
-use std::net::TcpStream;
+use std::net::{IpAddr, TcpStream};
 use std::sync::mpsc::channel;
 use std::sync::{Arc, RwLock};
 
@@ -51,6 +51,23 @@ impl From<Config> for AppState {
             #[cfg(feature = "plugins")]
             plugin_manager: RwLock::new(PluginManager::default()),
         }
+    }
+}
+
+impl AppState {
+    /// Checks whether an address is on the blacklist.
+    ///
+    /// IPv4-mapped IPv6 addresses (`::ffff:a.b.c.d`, which is how IPv4 clients appear when the
+    ///   server listens on a dual-stack address such as `::`) are compared as the IPv4 address
+    ///   they stand for, so an IPv4 entry in the blacklist also applies to them.
+    pub fn is_blacklisted(&self, address: &IpAddr) -> bool {
+        let address = address.to_canonical();
+
+        self.config
+            .blacklist
+            .list
+            .iter()
+            .any(|listed| listed.to_canonical() == address)
     }
 }
 
@@ -160,7 +177,7 @@ fn init_app_routes(host: &HostConfig, host_index: usize) -> SubApp<AppState> {
 fn verify_connection(stream: &mut TcpStream, state: Arc<AppState>) -> bool {
     if let Ok(address) = stream.peer_addr() {
         if state.config.blacklist.mode == BlacklistMode::Block
-            && state.config.blacklist.list.contains(&address.ip())
+            && state.is_blacklisted(&address.ip())
         {
             state.logger.warn(format!(
                 "{}: Blacklisted IP attempted to connect",
